@@ -114,10 +114,16 @@ def to_dict_eval(chk, repo, rule):
     dt = datetime.datetime(2016, 2, 29, 23, 59, 59, 999000)
     io = Const("<stream>")
     inner = lambda: DictS(OrderedDict([("_io", io), ("a", Const(1)), ("pair", TupS([Const(2.5), DictS(OrderedDict(units=Const("m")))]))]))
+
+    def LC(elts):
+        # what `subcon[count]` parses to: construct's ListContainer, a list subclass
+        lst = ListLit(elts)
+        lst.pyname, lst.pybases = "ListContainer", ("list",)
+        return lst
     model = DictS(OrderedDict([("_io", io), ("n", Const(7)), ("x", Const(1.5)), ("s", Const("text")), ("b", Const(b"raw")), ("z", Const(complex(1, -2))), ("t", Const(dt)),
-                               ("sub", inner()), ("items", ListLit([inner(), inner()])), ("empty", ListLit([])), ("nested", DictS(OrderedDict([("_io", io), ("deep", inner())])))]))
+                               ("sub", inner()), ("items", LC([inner(), inner()])), ("empty", LC([])), ("numbers", LC([Const(1.5), Const(2.5)])), ("pairs", LC([TupS([Const(1), DictS(OrderedDict(units=Const("s")))])])), ("nested", DictS(OrderedDict([("_io", io), ("deep", inner())])))]))
     want_inner = {"a": 1, "pair": (2.5, {"units": "m"})}
-    want = {"n": 7, "x": 1.5, "s": "text", "b": b"raw", "z": complex(1, -2), "t": dt, "sub": want_inner, "items": [want_inner, want_inner], "empty": [], "nested": {"deep": want_inner}}
+    want = {"n": 7, "x": 1.5, "s": "text", "b": b"raw", "z": complex(1, -2), "t": dt, "sub": want_inner, "items": [want_inner, want_inner], "empty": [], "numbers": [1.5, 2.5], "pairs": [(1, {"units": "s"})], "nested": {"deep": want_inner}}
     try:
         got = from_shape(I.call(I.lookup("to_dict", sc), [model], {}))
     except _Raise as e:
